@@ -1001,12 +1001,69 @@ package dig
 //@   loop for i < numArgs #1: invariant[C06:parameter-parse-keeps-the-graphs] graphsOnlyGrow() && treeInv() && (forall m map[*Scope]int :: existed(m) ==> mapeq(m))
 //@   site call dig.newParam #1: assert[C15:each-argument-type-parsed-in-order] $arg0 == inT(ctype, i) && $arg1 == c
 
+//@ func parseGroupString(s) (g, err)
+//@   allocates plain
+//@   ensures[C09:a-group-has-a-name,C14:a-group-has-a-name] err == nil ==> g.Name != ""
+//@   loop range components[1:] #1: invariant g.Name != ""
+
+// what the result parsers guarantee about one result
+//@ pure func okResult(r Any) Bool = r != nil && !is(r, resultList)
+//@     && (is(r, resultGrouped) ==> as(r, resultGrouped).Group != "" && as(r, resultGrouped).Type != nil)
+//@     && (is(r, resultSingle) ==> as(r, resultSingle).Type != nil)
+
+//@ func newResultSingle(t, opts) (r, err)
+//@   requires t != nil
+//@   requires forall i int :: 0 <= i && i < len(opts.As) ==> opts.As[i] != nil && kind(typeOf(opts.As[i])) == kPtr() && kind(elem(typeOf(opts.As[i]))) == kInterface()
+//@   allocates plain
+//@   ensures[C09:single-result-keeps-the-declared-name] r.Name == opts.Name
+//@   ensures[C09:without-as-the-result-is-provided-as-its-own-type] err == nil && len(opts.As) == 0 ==> r.Type == t && len(r.As) == 0
+//@   ensures[C09:a-single-result-has-a-type] err == nil ==> r.Type != nil
+//@   loop range opts.As #1: invariant[C09:as-types-so-far] (cap(asTypes) == 0 || fresh(asTypes)) && (forall j int :: 0 <= j && j < len(asTypes) ==> asTypes[j] != nil) && ($i == 0 ==> len(asTypes) == 0)
+
+//@ func newResultGrouped(f) (rg, err)
+//@   requires f.Type != nil
+//@   allocates plain
+//@   ensures[C09:grouped-field-has-a-group-name,C14:grouped-field-has-a-group-name] err == nil ==> rg.Group != "" && rg.Type != nil
+//@   ensures[C10:flattened-field-feeds-its-element-type] err == nil && rg.Flatten ==> kind(f.Type) == kSlice() && rg.Type == elem(f.Type)
+//@   ensures[C10:plain-grouped-field-feeds-its-own-type] err == nil && !rg.Flatten ==> rg.Type == f.Type
+
+//@ func newResult(t, opts) (r, err)
+//@   requires t != nil
+//@   requires forall i int :: 0 <= i && i < len(opts.As) ==> opts.As[i] != nil && kind(typeOf(opts.As[i])) == kPtr() && kind(elem(typeOf(opts.As[i]))) == kInterface()
+//@   allocates plain
+//@   ensures[C15:a-result-is-a-single-an-object-or-a-group,C09:a-result-is-a-single-an-object-or-a-group] err == nil ==> okResult(r)
+//@   ensures[C09:a-group-option-makes-a-grouped-result] err == nil && is(r, resultGrouped) ==> as(r, resultGrouped).Group != ""
+//@   loop range opts.As #1: invariant (cap(asTypes) == 0 || fresh(asTypes)) && (forall j int :: 0 <= j && j < len(asTypes) ==> asTypes[j] != nil) && rg.Group != "" && rg.Type == t && rg.Flatten == g.Flatten && g.Name != ""
+
+//@ func newResultObject(t, opts) (ro, err)
+//@   requires t != nil
+//@   requires forall i int :: 0 <= i && i < len(opts.As) ==> opts.As[i] != nil && kind(typeOf(opts.As[i])) == kPtr() && kind(elem(typeOf(opts.As[i]))) == kInterface()
+//@   allocates plain
+//@   ensures[C15:result-object-keeps-its-struct-type] ro.Type == t
+//@   ensures[C15:result-object-fields-are-results] err == nil ==> (forall j int :: 0 <= j && j < len(ro.Fields) ==> okResult(ro.Fields[j].Result) && 0 <= ro.Fields[j].FieldIndex && ro.Fields[j].FieldIndex < numField(t))
+//@   loop for i < t.NumField() #1: invariant[C15:result-fields-so-far] 0 <= i && ro.Type == t && (cap(ro.Fields) == 0 || fresh(ro.Fields))
+//@        && (forall j int :: 0 <= j && j < len(ro.Fields) ==> okResult(ro.Fields[j].Result) && 0 <= ro.Fields[j].FieldIndex && ro.Fields[j].FieldIndex < numField(t))
+//@   site call dig.newResultObjectField #1: assert[C15:result-field-parsed-with-its-own-index] $arg0 == i
+
+//@ func newResultObjectField(idx, f, opts) (rof, err)
+//@   requires f.Type != nil
+//@   requires forall i int :: 0 <= i && i < len(opts.As) ==> opts.As[i] != nil && kind(typeOf(opts.As[i])) == kPtr() && kind(elem(typeOf(opts.As[i]))) == kInterface()
+//@   allocates plain
+//@   ensures[C15:result-field-keeps-its-index] rof.FieldIndex == idx
+//@   ensures[C15:result-field-has-a-result] err == nil ==> okResult(rof.Result)
+//@   ensures[C14:unexported-result-field-is-rejected] f.PkgPath != "" ==> err != nil
+
 //@ func newResultList(ctype, opts) (rl, err)
-//@   trusted
 //@   requires ctype != nil && kind(ctype) == kFunc()
-//@   allocates
-//@   ensures err == nil ==> rl.ctype == ctype && wfResultList(rl) && noNestedLists(rl) && len(rl.resultIndexes) == numOut(ctype)
-//@   ensures treeInv()
+//@   requires forall i int :: 0 <= i && i < len(opts.As) ==> opts.As[i] != nil && kind(typeOf(opts.As[i])) == kPtr() && kind(elem(typeOf(opts.As[i]))) == kInterface()
+//@   allocates plain
+//@   ensures[C15:one-result-per-non-error-return-value] err == nil ==> rl.ctype == ctype && wfResultList(rl) && noNestedLists(rl) && len(rl.resultIndexes) == numOut(ctype)
+//@   ensures[C09:every-result-is-well-formed] err == nil ==> (forall j int :: 0 <= j && j < len(rl.Results) ==> okResult(rl.Results[j]))
+//@   loop for i < numOut #1: invariant[C15:results-so-far] 0 <= i && i <= numOut && numOut == numOut(ctype) && rl.ctype == ctype && len(rl.resultIndexes) == numOut && resultIdx == len(rl.Results) && len(rl.Results) >= 0
+//@   loop for i < numOut #1: invariant[C15:result-lists-are-this-calls-own] fresh(rl.resultIndexes) && fresh(rl.Results)
+//@   loop for i < numOut #1: invariant[C15:result-indexes-so-far] forall j int :: 0 <= j && j < i ==> 0 - 1 <= rl.resultIndexes[j] && rl.resultIndexes[j] < len(rl.Results)
+//@   loop for i < numOut #1: invariant[C09:results-well-formed-so-far] forall j int :: 0 <= j && j < len(rl.Results) ==> okResult(rl.Results[j])
+//@   site call dig.newResult #1: assert[C15:each-return-type-parsed-in-order] $arg0 == outT(ctype, i)
 
 //@ func (pl paramList) DotParam() (r)
 //@   trusted
@@ -1021,6 +1078,7 @@ package dig
 //@   ensures (fresh(r) || len(r) == 0) && (forall i int :: 0 <= i && i < len(r) ==> r[i] != nil && fresh(r[i]) && r[i].Node != nil && fresh(r[i].Node))
 
 //@ func newConstructorNode(ctor, s, origS, opts) (n, err)
+//@   requires forall i int :: 0 <= i && i < len(opts.ResultAs) ==> opts.ResultAs[i] != nil && kind(typeOf(opts.ResultAs[i])) == kPtr() && kind(elem(typeOf(opts.ResultAs[i]))) == kInterface()
 //@   requires ctor != nil && kind(typeOf(ctor)) == kFunc() && s != nil && origS != nil && treeInv()
 //@   modifies graphHolder.nodes, elems(*graphNode), map(constructorNode.orders)
 //@   allocates
@@ -1062,6 +1120,7 @@ package dig
 //@   ensures treeInv()
 
 //@ func (s0 *Scope) provide(ctor, opts) (err)
+//@   requires forall i int :: 0 <= i && i < len(opts.As) ==> opts.As[i] != nil && kind(typeOf(opts.As[i])) == kPtr() && kind(elem(typeOf(opts.As[i]))) == kInterface()
 //@   loop range oldProviders #1: complete[C06:every-key-restored]
 //@   loop range keys #1: complete[C09:registered-under-every-key,C06:registered-under-every-key]
 //@   loop range allScopes #1: complete[C06:every-listed-scope-snapshotted,C05:every-listed-scope-snapshotted]
